@@ -114,6 +114,14 @@ theorem quickDetectable_of_prefix {r : Repo} {H : List (Nat × Bytes)} {src : Sr
       rw [hcc, hlen, hfl, hb]
       exact (List.prefix_iff_eq_take.1 this).symm
 
+theorem find_filter {α} (p q : α → Bool) (l : List α) :
+    (l.filter p).find? q = (l.filter (fun e => p e && q e)).head? := by
+  induction l with
+  | nil => rfl
+  | cons a t ih =>
+    by_cases hp : p a = true <;> by_cases hq : q a = true <;>
+      simp [List.filter_cons, List.find?_cons, hp, hq, ih]
+
 /-! ### single-file damages -/
 
 theorem distinct_of_dec {l : List DFile} (h : DecDates l) : DistinctDates l :=
